@@ -63,7 +63,62 @@ def enumerate_states(tier, seed):
                                "quick: type x size x all 28 orientations complete; offsets/margin: all pairs of deviations "
                                "+ seed-selected full slice; each with 30 directions x 3 norms; mesh cache BFS to closure")
     meta["exhaustive"] = tier == "thorough"
+    states += winding_states()
+    meta["bound_completed"] += "; MeshGraph: all 1296 orderings of the triangle list of two tetrahedra x 4 cache states x 30 directions"
     return states, meta
+
+
+# ------------------------------------------------------------------ every way to write down the triangle list of a tetrahedron
+#
+# MeshGraph builds its adjacency from the triangle list as given; user meshes (e.g. scipy ConvexHull(...).simplices) are not
+# consistently wound.  For two tetrahedra ALL 6^4 = 1296 lists (every ordering of the three indices of each of the four faces) are
+# built, and for every list the cache-state x direction graph is explored completely (4 start vertices x 30 directions).
+
+WINDING_BLOCKS = 12
+
+
+def winding_states():
+    return [{"t": "winding", "mesh": name, "block": b} for name in ("tetra", "corner") for b in range(WINDING_BLOCKS)]
+
+
+def run_winding(desc):
+    from distance3d import colliders as C
+    v, _ = sc.mesh_data(desc["mesh"])
+    v = np.ascontiguousarray(v, dtype=float)
+    faces = [(0, 1, 2), (0, 1, 3), (0, 2, 3), (1, 2, 3)]
+    orders = list(itertools.permutations(range(3)))
+    dirs = [np.ascontiguousarray(d) for d in sc.DIRS]
+    T = sc.pose(5, np.array([0.5, -0.25, 0.125]))
+    W = v @ T[:3, :3].T + T[:3, 3]
+    hvals = [float(np.max(W @ d)) for d in dirs]
+    viol, n_eval = [], 0
+    allw = list(itertools.product(orders, repeat=4))
+    seen = set()
+    for wi, w in enumerate(allw):
+        if wi % WINDING_BLOCKS != desc["block"]:
+            continue
+        tri = np.ascontiguousarray(np.array([[f[k] for k in o] for f, o in zip(faces, w)], dtype=np.int64))
+        try:
+            col = C.MeshGraph(T.copy(), v.copy(), tri)
+            sf = col._support_function
+            for start in range(4):
+                for di, d in enumerate(dirs):
+                    sf.first_idx = start
+                    p = col.support_function(d)
+                    n_eval += 1
+                    if hvals[di] - float(p @ d) > 1e-9:
+                        sig = "not_extreme"
+                        if sig not in seen:
+                            seen.add(sig)
+                            viol.append(_viol("not_extreme", "support_function", "mesh:triangle_list_orderings",
+                                              {"mesh": desc["mesh"], "triangles": tri.tolist(), "start_vertex": start, "dir": di,
+                                               "gap": hvals[di] - float(p @ d)}))
+        except Exception as e:  # noqa
+            sig = "exception:" + type(e).__name__
+            if sig not in seen:
+                seen.add(sig)
+                viol.append(_viol(sig, "support_function", "mesh:triangle_list_orderings", {"mesh": desc["mesh"], "triangles": tri.tolist(), "exc": repr(e)[:200]}))
+    return {"viol": viol, "n_eval": n_eval, "n_trans": n_eval, "traces": n_eval, "nontrivial_n": n_eval, "hist": {"type": {"mesh_triangle_list_orderings": n_eval}}}
 
 
 def _viol(kind, entry, cls, detail):
@@ -75,6 +130,8 @@ def scale_L(ref, centre):
 
 
 def run_state(desc):
+    if desc["t"] == "winding":
+        return run_winding(desc)
     t, s, o, f, m = desc["t"], desc["s"], desc["o"], desc["f"], desc["m"]
     centre = sc.OFFSETS[f]
     mv = sc.margin_value(t, s, m)
